@@ -24,7 +24,7 @@ pub fn prop() -> HistProp {
         quick: 4000,
         thorough: 30000,
         mk: |_, _, _| Box::new(C02 { nontrivial: false }),
-        extra: None,
+        extra: Some((3, |_| uneven_bond_scenario_strategy(cfg_strategy()))),
         many_batches: 0,
     }
 }
@@ -36,6 +36,16 @@ fn v(sig: &str, detail: String) -> Violation {
 impl Checker for C02 {
     fn step(&mut self, cx: &StepCx, out: &mut CaseResult) {
         let (o0, o1, step) = (cx.o0, cx.o1, cx.step);
+        // a bond whose Delegate message fails for lack of funds tried to delegate more than payment + liquid balance
+        if let (ROp::Bond { amount, .. }, Err(e)) = (&step.rop, &step.res) {
+            if e.contains("staking: insufficient funds") {
+                out.fail(v(
+                    "bond-over-delegates",
+                    format!("{}: a delegate message could not be funded although {} was paid in and the hub held {} liquid: the plan exceeds the payment", step.desc(), amount, o0.bank_of(HUB, USEI)),
+                ));
+                return;
+            }
+        }
         if step.rop.is_env() || !step.ok() {
             return;
         }
